@@ -7,10 +7,10 @@
   are sampled by the amplification leg of checks/c06.py.
 -/
 import GoluaVerif.Proofs.Ctx
-import GoluaVerif.Proofs.CallCtx
+import GoluaVerif.Proofs.Propagate
 namespace GoluaVerif.Props.C06
 open GoluaVerif.Generated.Resources GoluaVerif.Model.Ctx GoluaVerif.Spec.Quota GoluaVerif.Proofs.Ctx
-open GoluaVerif.Model.CallCtx GoluaVerif.Proofs.CallCtx
+open GoluaVerif.Model.CallCtx GoluaVerif.Proofs.CallCtx GoluaVerif.Proofs.Propagate
 
 /-- In every state reachable by a legal history the accounted memory of the active context and of
 every ancestor is strictly below its limit: the computation is terminated *before* the allocation
@@ -70,6 +70,44 @@ theorem mem_kill_monotone (f : Frame) (ms : List MemOp) (M M' : BitVec 64) (hl :
     exact unlimited_mem_never_killed (f := withMemLimit f 0#64) ms hl hs rfl hk
   · exact mem_monotone_aux ms M M' hl hs ht hM' hM (limLe_le hle hM) hnk hk
 
+/-- **A bracket without a memory limit of its own cannot absorb a memory termination**: for every
+well-formed body, if the body is terminated for memory and the enclosing context is memory-limited,
+the enclosing context is terminated as well and nothing runs in between (commit 0426709; before it
+`pcall(string.rep, 'x', 1e6)` returned false and the program went on). -/
+theorem limitless_bracket_cannot_absorb_mem (a : Acc) (d : CtxDef) (body : List Item) (hw : wfBody body = true)
+    (hi : Inv a.st) (hl : a.st.cur.live = true) (hd : d.hard.Memory = 0#64) (hL : a.st.cur.hard.Memory ≠ 0#64)
+    (hk : (runBody { a with st := push a.st d } body).2 = .killed .mem) :
+    (runItem a (.call d body)).2 = .killed .mem ∧
+    (runItem a (.call d body)).1.st.cur.status = StatusKilled ∧
+    (runItem a (.call d body)).1.st.parents = a.st.parents ∧
+    (runItem a (.call d body)).1.events = (runBody { a with st := push a.st d } body).1.events ∧
+    (runItem a (.call d body)).1.results = (runBody { a with st := push a.st d } body).1.results :=
+  limitless_bracket_propagates_mem a d body hw hi hl hd hL hk
+
+/-- **monotone in M through any nesting of limit-less brackets**: take any program made of memory
+requests, releases and pcall-like brackets, and run it in two stacks whose active contexts differ
+only in their hard memory limit (`RelS δ`: the first has `δ` bytes more).  If the run under the
+smaller limit is not terminated, the run under the larger limit ends in exactly the same way (same
+exit: done or the same foreign panic) and the two contexts are again related — so a program killed
+under `M` is killed under every `M' ≤ M`.  (False before 0426709: done at 512, killed at 768.) -/
+theorem mem_kill_monotone_nested (δ : Nat) (a a' : Acc) (body : List Item) (hw : bodyPcallMem body = true)
+    (hr : RelS δ a.st a'.st) (hi : Inv a.st) (hi' : Inv a'.st) (hl' : a'.st.cur.live = true)
+    (hs' : a'.st.cur.hardStopped = false)
+    (hk : ∃ res, (runBody a body).2 = .killed res) : ∃ res, (runBody a' body).2 = .killed res := by
+  apply Classical.byContradiction
+  intro hn
+  have hnk : NotKilled (runBody a' body).2 := fun res h => hn ⟨res, h⟩
+  obtain ⟨he, _⟩ := sim_body δ a a' body hw hr hi hi' hl' hs' hnk
+  obtain ⟨res, hres⟩ := hk
+  rw [he] at hres
+  exact hnk res hres
+
+/-- in a memory program every termination is a memory termination, at any depth -/
+theorem mem_program_killed_by_memory (a : Acc) (body : List Item) (hw : bodyPcallMem body = true) (hi : Inv a.st)
+    (hl : a.st.cur.live = true) (hs : a.st.cur.hardStopped = false) (h0 : a.st.cur.hard.Memory ≠ 0#64) :
+    ∀ res, (runBody a body).2 = .killed res → res = .mem :=
+  (memrun_body a body hw hi hl hs h0).cause
+
 /-- **no underflow inside a frame**: a context that releases only what it has itself required
 (running balance never negative), with amounts that cannot wrap the counter, never raises
 "Too much mem released" -/
@@ -107,7 +145,7 @@ theorem release_across_frames_counterexample :
 theorem release_across_frames_escapes_counterexample :
     (exec St.init (.call crossDef [.op (.reqMem 2048#64), .call CtxDef.none [.op (.relMem 2048#64)]])).2 = .crashed ∧
     (exec St.init (.call crossDef [.op (.reqMem 2048#64), .call CtxDef.none [.op (.relMem 2048#64)]])).1.st = St.init := by
-  decide
+  decide +kernel
 
 /-! ### the compile pipeline of runtime/lib.go (hand model of its accounting) -/
 
@@ -168,5 +206,21 @@ example : let f := (run St.init [.push crossDef]).cur
     Outcome.terminated ∈ outcomes ⟨withMemLimit f 1000#64, []⟩ (memOps [.req 600#64, .rel 100#64, .req 600#64]) ∧
     Outcome.terminated ∉ outcomes ⟨withMemLimit f 4000#64, []⟩ (memOps [.req 600#64, .rel 100#64, .req 600#64]) := by
   decide
+
+def memLimited (M : BitVec 64) : St := push St.init ⟨⟨0#64, M, 0#64⟩, Res.zero, 0#16⟩
+def memProg : List Item :=
+  [.op (.reqMem 600#64), .call CtxDef.none [.op (.reqMem 300#64), .call CtxDef.none [.op (.reqMem 200#64)], .op (.relMem 300#64)],
+   .op (.relMem 100#64)]
+
+/-- hypotheses of `mem_kill_monotone_nested` with M = 4000, M' = 1000 (δ = 3000): related fresh contexts, a
+two-deep pcall nest; it survives under 4000 and is killed (at depth 3, propagated to the top) under 1000 -/
+example : RelS 3000 (memLimited 4000#64) (memLimited 1000#64) :=
+  ⟨by decide, by decide, by decide, by decide, by decide, by decide, by decide, by decide, by decide, by decide,
+   by decide, by decide⟩
+
+example : bodyPcallMem memProg = true ∧
+    (runBody (Acc.start (memLimited 4000#64)) memProg).2 = .done ∧
+    (runBody (Acc.start (memLimited 1000#64)) memProg).2 = .killed .mem ∧
+    (runBody (Acc.start (memLimited 1000#64)) memProg).1.st.cur.status = StatusKilled := by decide +kernel
 
 end GoluaVerif.Props.C06
